@@ -168,9 +168,11 @@ pub fn transfer(c: &Case, rep: &mut Report) -> Result<&'static str, (String, Str
                 if reply.options.iter().any(|o| o.0 == 23) {
                     return Err(("C08/undecodable-block2-option".into(), "reply carries a Block2 option that does not decode".into()));
                 }
-                if followups > 0 || c.strat.early.is_some() {
+                if followups > 0 {
                     return Err(("C08/block2-option-missing".into(), format!("reply to a Block2 request (follow-up {}) carries no Block2 option", followups)));
                 }
+                // (a first reply without a Block2 option - also to an early-negotiation request - is an unfragmented
+                // response: it must then carry the whole body, which is checked below)
                 // unfragmented
                 received.extend_from_slice(&reply.payload);
                 unfragmented = true;
